@@ -216,6 +216,13 @@ int main(int argc, char** argv) {
         gen.setPartner(GGeom{}, 0);
         bool coll = r.chance(25);                       // collections / zero-length lines: setPrecision and unary union only
         GGeom A = gen.geom(r.chance(55) ? 2 : 3, coll, coll);
+        if (coll && r.chance(50)) {                    // explicit mixed-dimension collection: polygon(s) crossed by line(s), maybe a point
+            A = GGeom{}; A.container = 2; A.elems.push_back(gen.polygon());
+            { GGeom part = A; gen.setPartner(part, 40); }
+            if (r.chance(40)) A.elems.push_back(gen.polygon());
+            int nl = r.range(1, 2); for (int k = 0; k < nl; k++) A.elems.push_back(gen.line());
+            if (r.chance(40)) A.elems.push_back(gen.point());
+            gen.setPartner(GGeom{}, 0); out.count("A_mixed_collection"); }
         gen.setPartner(A, r.chance(80) ? 55 : 0);
         GGeom B = gen.geom(r.chance(55) ? 2 : 3, false, false);
         DX t;
